@@ -97,7 +97,11 @@ def perturb_data(text, plan):
         for txt in plan.get('between_noise', []):
             out.append(txt)
             fired.append('noise_between_sections')
-        out += ['', 'Velocities', ''] + vrows
+        if loss == 'velocity_rows':
+            out += ['', 'Velocities'] + ([''] if plan.get('tail_blank') else [])
+            fired.append('loss_velocity_rows')
+        else:
+            out += ['', 'Velocities', ''] + vrows
     for txt in plan.get('tail_noise', []):
         out.append(txt)
         fired.append('noise_tail')
